@@ -272,6 +272,7 @@ def run(ctx):
                  'write after the task CAS reachable although it lost',
                  ctx.loc(tf, st))
     cas_skipped_only_when_unchanged(ctx, r2)
+    loser_path_effect_free(ctx, r2)
 
     # ---- R3 transition table vs statement --------------------------------
     r3 = ctx.rule('R3', 'transition table restricted to requested targets '
@@ -641,6 +642,36 @@ def finished_workflows(ctx, r7, completed, S):
         r7.check(not (vals & completed), ctx.construct(h, c),
                  'handler reaches check_and_complete for finished '
                  'workflows', ctx.loc(h, c))
+
+
+def loser_path_effect_free(ctx, r2):
+    prog = ctx.prog
+    # the losing side of either CAS leaves the in-memory object exactly as
+    # it was read: callers that ignore the boolean (RegularTask._run_new)
+    # notice the lost race only because the stale state is still there
+    for fq_, var_ in ((TASK + '.set_state', 'task_ex'),
+                      (WF + '.set_state', 'wf_ex')):
+        sf = prog.func(fq_)
+        scfg = ctx.cfg(sf)
+        lost = [x for x in scfg.nodes if x.kind in ('stmt', 'with', 'for')
+                and U.guarded(scfg, x, '%s is None' % var_, True)]
+        if not lost:
+            raise AnalysisError('C03.R2: lost-CAS path of %s not found'
+                                % fq_)
+        for x in lost:
+            calls = [c for c in scfg.own_nodes(x) if isinstance(c, ast.Call)
+                     and not (U.call_dotted(c) or '').startswith(
+                         ('LOG.', 'wf_trace.'))]
+            stores = [t for t in scfg.own_nodes(x)
+                      if isinstance(t, (ast.Attribute, ast.Subscript)) and
+                      isinstance(t.ctx, ast.Store)]
+            r2.check(not calls and not stores, ctx.construct(sf, x.ast),
+                     'the losing side of the state CAS does something '
+                     'besides returning (%s): a refreshed / modified object '
+                     'makes callers that test the in-memory state continue '
+                     'as if they had won'
+                     % [norm(c, 40) for c in (calls + stores)[:2]],
+                     ctx.loc(sf, x.ast))
 
 
 def cas_skipped_only_when_unchanged(ctx, rule):
